@@ -200,7 +200,12 @@ func runLocator(c J, emit func(J)) {
 				return
 			}
 			ev["regions"] = regionsToJSON(locate(seq))
+			// the same locator value applied again (to a fresh copy of the record): a locator is a function
+			ev["regions2"] = regionsToJSON(locate(makeSeq(rec)))
 		}()
+		if _, ok := ev["regions2"]; !ok {
+			ev["regions2"] = []interface{}{}
+		}
 		if _, ok := ev["pre"]; !ok {
 			ev["pre"] = J{"res": []int{}, "feats": []interface{}{}}
 		}
